@@ -52,3 +52,11 @@ Definition scanner_ok (scan : bytes -> scan_res) (v : bytes) : Prop :=
   (forall k, (k < length v)%nat -> scan (firstn k v) = SNeedMore).
 Definition scanner_skips_newline (scan : bytes -> scan_res) : Prop :=
   scan [] = SNeedMore /\ forall rest, scan (10 :: rest) = scan rest.
+
+(* ---------- writer side ----------
+   What can be on the wire after a sender encoded the messages ms into a writer that
+   accepted at most `room` bytes (None: all of them): a prefix of the proper stream. *)
+Definition cut_to (room : option nat) (stream : bytes) : bytes :=
+  match room with None => stream | Some r => firstn r stream end.
+Definition wire_spec (ms : list bytes) (room : option nat) : bytes := cut_to room (write_all ms).
+Definition json_wire_spec (vs : list bytes) (room : option nat) : bytes := cut_to room (json_write_all vs).
